@@ -1,0 +1,30 @@
+//go:build verif
+
+package signature
+
+import "sort"
+
+// VerifContext describes one registered signature context (verification harness only).
+type VerifContext struct {
+	Context             string
+	ChainSeparation     bool
+	DynamicSuffix       string
+	DynamicSuffixMaxLen int
+}
+
+// VerifRegisteredContexts lists the contexts registered at this moment, sorted by name.
+func VerifRegisteredContexts() []VerifContext {
+	var out []VerifContext
+	registeredContexts.Range(func(k, v any) bool {
+		o := v.(*contextOptions)
+		out = append(out, VerifContext{
+			Context:             string(k.(Context)),
+			ChainSeparation:     o.chainSeparation,
+			DynamicSuffix:       o.dynamicSuffix,
+			DynamicSuffixMaxLen: o.dynamicSuffixMaxLen,
+		})
+		return true
+	})
+	sort.Slice(out, func(i, j int) bool { return out[i].Context < out[j].Context })
+	return out
+}
